@@ -26,6 +26,15 @@ CHECKS = {
  'C05': dict(technique='Coq-verified enumerator used twice (translations of the grammar, and of its full-information variant = derivation trees); both implications checked on the flag',
              text='Theorem: all_translations_spec. Correspondence: flag set => at least two derivation trees; two different translations => flag set; both one_parse values, all lookahead levels and cost settings.',
              design='6 C05'),
+ 'C06': dict(technique='Coq proof of shift_count (how many leading tokens can be shifted, in terms of declarative Earley items = valid items of the prefix, independent of lookahead) + differential run: first syntax_error token and all callback arguments',
+             text='Theorems: C06_first_unshiftable_token (every token before k has an item of its prefix, token k has none; acceptance iff sentence) and Item <-> valid. Correspondence: first reported error token and its attribute equal the decider\'s for strict (reduced) grammars at all lookahead levels; recovery-off arguments (-1, NULL, -1, NULL); recovery-on ranges, attributes and strictly increasing error tokens. Partial: "an item of the prefix exists iff some sentence starts with it" (reduced grammars) is not yet proved in Coq.',
+             design='6 C06'),
+ 'C07': dict(technique='Coq-verified enumerators (translations of a token sequence with explicit attributes over the grammar with `error\' as terminal; DAG denotation; sentence decider) + search over repairs of the reported size',
+             text='Theorems: C07_translations_of_a_repair, C07_denotation_exact, C07_sentence_decider. Correspondence: rc 0 and a non-NULL well-formed tree for every input with recovery on; callbacks iff non-sentence; some repair (disjoint segments replaced by `error\', total length = tokens reported ignored) has the returned tree among its translations; the uniqueness clause for single-segment repairs.',
+             design='6 C07'),
+ 'C08': dict(technique='Coq proof of shift_count used on prefix_b ++ [error] ++ rest for every (b, f) + comparison with the first callback',
+             text='Theorem: C08_shiftable_decider. Correspondence: for every non-sentence, every back position b and forward skip f such that `error\' and the next recovery_match tokens (or all remaining ones up to acceptance) can be shifted, the first callback ignores at most (e-b)+f tokens; recovery_match 1..5, lookahead 0..2; nested-error family for several back-frontier advances.',
+             design='6 C08'),
  'C09': dict(technique='Coq lemmas on facts regenerated from yaep.c (clamp expression = max 0 (min 2 l); cache distance threshold <= 1) + the la-free specifications of C01-C05; differential run of the implementation against itself across lookahead x debug levels with the guarded goto-cache self-check',
              text='Theorems: C09_level_clamped and C09_cache_threshold are proved about expressions re-extracted from the source on every run (an edit of the clamp or of the threshold breaks the obligation); C09_verdict_determined: the prescribed verdict is a function of grammar and input only. Correspondence: all observables identical for la in {-3,0,1,2,7} x debug levels, and every goto-cache hit recomputed and compared (hook H1).',
              design='6 C09'),
